@@ -7,7 +7,7 @@ from ..gen import G, I
 
 ID = "C17"
 LEVEL = "exploration"
-RULE = ("cases = (failure kind, call chain): each defined dynamic failure (assert, get nil, list / string index range, zero "
+RULE = ("cases = (failure kind, call chain): each defined dynamic failure (assert, get nil, nil under an ordering / arithmetic operator, list / string index range, zero "
         "divisor of each numeric kind for / and %, overflow of int / bigint / byte arithmetic and negation, shift amount, "
         "list remove range, string offsets inside a character, conversion and radix ranges, a recursion without a base case) (its operand read from a parameter, from a variable captured out of a factory call that has returned, or from a private top-level variable of its file) is placed at call depth 0-6 below a chain mixing plain functions, closures, methods, list.map "
         "callbacks and functions of an imported module - or the whole chain runs at the top level of a module WHILE it is being imported -, optionally under if / while / from blocks, with output printed on the "
@@ -30,6 +30,11 @@ KINDS = {
     "assert": ([], ("assert", ("bin", "<", V("a"), I(0)))),
     "assert-after-text": ([], ("assert", ("bin", "<", V("a"), I(0)), "d\u00e9j\u00e0 vu \u65e5\u672c\u8a9e \U0001f600")),
     "get-nil": ([("decl", "o", ("opt", "int"), ("nil",), ())], ("decl", "v", None, ("get", V("o")), ())),
+    # nil reaching an ORDERING operator (through an optional, through a missing map entry), on either side
+    "order-with-nil": ([("decl", "o", ("opt", "int"), ("nil",), ())], ("decl", "v", None, ("bin", "<", V("a"), V("o")), ())),
+    "order-nil-left": ([("decl", "o", ("opt", "int"), ("nil",), ())], ("decl", "v", None, ("bin", ">=", V("o"), V("a")), ())),
+    "order-with-missing-entry": ([("decl", "mm", None, ("map", "str", "int", [(S("k"), I(1))]), ())], ("decl", "v", None, ("bin", "<=", V("a"), ("index", V("mm"), S("zz"))), ())),
+    "add-with-nil": ([("decl", "o", ("opt", "int"), ("nil",), ())], ("decl", "v", None, ("bin", "+", V("a"), V("o")), ())),
     "list-index": ([("decl", "l", ("list", "int"), ("list", [I(1)]), ())], ("decl", "v", None, ("index", V("l"), ("bin", "+", V("a"), I(5))), ())),
     "str-index": ([("decl", "s", None, S("ab"), ())], ("decl", "v", None, ("index", V("s"), ("bin", "+", V("a"), I(5))), ())),
     "div-zero-int": ([], ("decl", "v", None, ("bin", "/", I(10), ("bin", "-", V("a"), V("a"))), ())),
